@@ -289,6 +289,9 @@ carquet_status_t carquet_snappy_compress(
     if (!dst || !dst_size) {
         return CARQUET_ERROR_INVALID_ARGUMENT;
     }
+    if (src_size > 0xFFFFFFFFu) {
+        return CARQUET_ERROR_COMPRESSION; /* raw Snappy preamble is a 32-bit length */
+    }
 
     /* Check if output buffer is large enough for worst case */
     size_t max_output = carquet_snappy_compress_bound(src_size);
